@@ -51,7 +51,7 @@ Definition on_name_confirmed (name : bstr) (p : provst) : provst * list eff :=
 
 (* ProviderPrivate::onMessageReceived *)
 Definition prov_on_message (p : provst) (m : message) : list eff :=
-  if negb (pv_confirmed p) || m_response m then [] else
+  if provider_ignore_message (pv_confirmed p) (m_response m) then [] else
   let qs := m_queries m in
   (* the if / else-if chain over the questions *)
   let step := fun (acc : bool * bool * bool * bool) (q : query) =>
@@ -91,16 +91,17 @@ Definition prov_update (c : comp) (s : service) : comp * list eff :=
                            (let sr := set_port (s_port s) (set_name (Some fq) (pv_srvP p)) in
                             if h_reg (cp_host c) then set_target (Some (h_name (cp_host c))) sr else sr)
                            (set_attrs (s_attrs s) (set_name (Some fq) (pv_txtP p))) in
-  if negb (match bs_data (r_target (pv_srvP p1)) with [] => true | _ :: _ => false end) then
-    if negb (pv_confirmed p1) || negb (bs_eqb (Some fq) (r_name (pv_srv p1))) then
+  if provider_has_target (pv_srvP p1) then
+    if provider_must_confirm (pv_confirmed p1) (Some fq) (pv_srv p1) then
       let '(pb, es) := confirm p1 (cp_prober c) in (mkComp (cp_host c) p1 pb, es)
-    else if match cp_prober c with Some pb => bytes_eqb (pb_base pb ++ pb_tail pb) fq | None => false end then
+    else if provider_probe_pending (match cp_prober c with Some _ => true | None => false end)
+                                   (match cp_prober c with Some pb => Some (pb_base pb ++ pb_tail pb) | None => None end) (Some fq) then
       (* a probe for this very name is pending (probedName == fqName; the prober's base ++ tail is the name confirm() was
          called for): it publishes the updated proposals when it completes *)
       (mkComp (cp_host c) p1 (cp_prober c), [])
     else
       (* the obsolete prober (if any) is deleted, its timer with it; records pointing at a previous hostname are withdrawn *)
-      let '(p2, e2) := if bs_eqb (r_target (pv_srvP p1)) (r_target (pv_srv p1)) then (p1, []) else farewell p1 in
+      let '(p2, e2) := if provider_retarget (pv_srvP p1) (pv_srv p1) then farewell p1 else (p1, []) in
       let '(p3, e3) := publish p2 in
       (mkComp (cp_host c) p3 None, (match cp_prober c with Some _ => [EStop T_PROBER] | None => [] end) ++ e2 ++ e3)
   else (mkComp (cp_host c) p1 (cp_prober c), []).
